@@ -13,7 +13,10 @@ fn strategy(tier: Tier) -> BoxedStrategy<LedgerCase> {
     p.max_rows = tier.pick(18, 36);
     p.usd_norate = false; // the binary-level sample must not need the network
     p.secs = vec!["FOO", "BAR", "foo", "XYZ.TO", "Bar"]; // distinct securities that are equal when case is ignored
-    (ledger_strategy(p, 3), crate::gen::intent_strategy(), crate::gen::intent_strategy(), any::<u8>()).prop_map(|(base, i1, i2, mode)| {
+    // a third of the inputs use the currency-holding symbols the broker converters emit (USD.FX, ...), several of them at once
+    let mut pfx = p.clone();
+    pfx.secs = vec!["USD.FX", "EUR.FX", "FOO", "GBP.FX", "usd.fx"];
+    (prop_oneof![2 => ledger_strategy(p, 3), 1 => ledger_strategy(pfx, 3)], crate::gen::intent_strategy(), crate::gen::intent_strategy(), any::<u8>()).prop_map(|(base, i1, i2, mode)| {
         let mut c = base;
         // a quarter of the inputs get a bookkeeping failure planted into two securities (several error messages to order)
         if mode % 4 == 0 {
